@@ -739,13 +739,451 @@ fn part_pure(rep: &mut Reporter, tier: Tier) -> Stats {
     }
 }
 
-// fn part_font(rep: &mut Reporter, tier: Tier) -> Stats { ... }   // (ii): added later
+
+// ================================================================== part (ii): font level
+//
+// The same kind of axis definition written as a designspace `<map>` on a small variable font,
+// compiled by the real compiler, and read back with otvar (raw fvar/avar bytes, spec pipeline).
+
+const F_USERS: [f64; 7] = [100.0, 150.5, 200.0, 300.0, 400.0, 600.0, 900.0];
+const F_DESIGNS: [f64; 7] = [20.0, 40.0, 60.0, 90.5, 120.0, 160.0, 200.0];
+const F_AXES: [(&str, &str); 2] = [("wght", "Weight"), ("wdth", "Width")];
+
+/// companion axes for the 2-axis variant: no map with the default inside; a fractional map with
+/// the default at the minimum; a bent map with the default at the maximum
+fn companions() -> Vec<AxisDef> {
+    vec![
+        AxisDef { nodes: vec![(50.0, 50.0), (100.0, 100.0), (200.0, 200.0)], default_idx: 1 },
+        AxisDef { nodes: vec![(0.0, 10.5), (5.0, 20.0), (10.0, 21.0)], default_idx: 0 },
+        AxisDef { nodes: vec![(1.0, 0.0), (2.0, 7.5), (4.0, 8.0), (8.0, 100.0)], default_idx: 3 },
+    ]
+}
+
+fn degenerate_qual(def: &AxisDef) -> &'static str {
+    let r = Reference::of(def);
+    let k = def.nodes.len();
+    if r.dmin == r.dmax {
+        ":design-extent-zero"
+    } else if def.default_idx > 0 && r.dmin == r.ddef {
+        ":no-design-range-below-default"
+    } else if def.default_idx < k - 1 && r.dmax == r.ddef {
+        ":no-design-range-above-default"
+    } else {
+        ""
+    }
+}
+
+/// The design for a list of axis definitions: masters at the default and at every design
+/// extreme that differs from it (on-axis), one glyph, three named instances.
+fn axes_design(defs: &[AxisDef]) -> (dgen::Design, Vec<Vec<f64>>) {
+    use dgen::*;
+    let axes: Vec<Axis> = defs
+        .iter()
+        .enumerate()
+        .map(|(i, d)| {
+            let r = Reference::of(d);
+            let mut a = Axis::new(F_AXES[i].0, F_AXES[i].1, r.umin, r.udef, r.umax);
+            // identity maps are written without a <map> element
+            if d.nodes.iter().any(|(u, dv)| u != dv) {
+                a.map = d.nodes.clone();
+            }
+            a
+        })
+        .collect();
+    let default_loc: Vec<f64> = defs.iter().map(|d| Reference::of(d).ddef).collect();
+    let mut locs = vec![default_loc.clone()];
+    for (i, d) in defs.iter().enumerate() {
+        let r = Reference::of(d);
+        for v in [r.dmin, r.dmax] {
+            if v != r.ddef {
+                let mut l = default_loc.clone();
+                l[i] = v;
+                locs.push(l);
+            }
+        }
+    }
+    let nm = locs.len();
+    let mut design = Design::skeleton("AxesC08", axes, locs);
+    let mut g = Glyph::new("A", &[0x41]);
+    for m in 0..nm {
+        let w = 200.0 + 40.0 * m as f64;
+        g.layers.insert(m, Layer { advance: w + 100.0, contours: vec![shapes::rect(50.0, 0.0, 50.0 + w, 700.0)], ..Default::default() });
+    }
+    design.glyphs.push(g);
+    // instances: all axes at min, all at max, and an interior point of every axis
+    let inst: Vec<Vec<f64>> = vec![
+        defs.iter().map(|d| Reference::of(d).umin).collect(),
+        defs.iter().map(|d| Reference::of(d).umax).collect(),
+        defs.iter().map(|d| { let s = sample_users(d); s[s.len() / 2 + 1 - (s.len() % 2)] }).collect(),
+    ];
+    for (i, u) in inst.iter().enumerate() {
+        design.instances.push(Instance { family: None, style: format!("Inst{i}"), ps_name: None, user_loc: u.clone() });
+    }
+    (design, inst)
+}
+
+/// Worker-local source directories, one per master count (the UFOs do not depend on the case).
+struct FontRig {
+    dirs: BTreeMap<usize, vcore::Scratch>,
+}
+
+impl FontRig {
+    fn new() -> FontRig {
+        FontRig { dirs: BTreeMap::new() }
+    }
+    fn compile(&mut self, design: &dgen::Design) -> Result<Vec<u8>, fcx::Failure> {
+        let nm = design.masters.len();
+        let dir = self.dirs.entry(nm).or_insert_with(|| {
+            let sc = vcore::Scratch::new("c08");
+            if let Err(e) = design.write_designspace(sc.path()) {
+                vcore::machinery_error(&format!("cannot write sources: {e}"));
+            }
+            sc
+        });
+        let path = dir.join("design.designspace");
+        if let Err(e) = std::fs::write(&path, design.designspace_xml()) {
+            vcore::machinery_error(&format!("cannot write designspace: {e}"));
+        }
+        fcx::compile(&path, &fcx::Opts::default(), None)
+    }
+}
+
+#[derive(Default, Clone)]
+struct FCounts {
+    fonts: u64,
+    skipped_zero_extent: u64,
+    degenerate_compiled: u64,
+    compile_failures: u64,
+    points: u64,
+    nontrivial: u64,
+    with_avar: u64,
+    without_avar: u64,
+    instances_checked: u64,
+    instances_exact: u64,
+    max_err_over_tol: f64,
+    two_axis_fonts: u64,
+}
+
+impl FCounts {
+    fn add(&mut self, o: &FCounts) {
+        self.fonts += o.fonts;
+        self.skipped_zero_extent += o.skipped_zero_extent;
+        self.degenerate_compiled += o.degenerate_compiled;
+        self.compile_failures += o.compile_failures;
+        self.points += o.points;
+        self.nontrivial += o.nontrivial;
+        self.with_avar += o.with_avar;
+        self.without_avar += o.without_avar;
+        self.instances_checked += o.instances_checked;
+        self.instances_exact += o.instances_exact;
+        self.max_err_over_tol = self.max_err_over_tol.max(o.max_err_over_tol);
+        self.two_axis_fonts += o.two_axis_fonts;
+    }
+}
+
+/// Compile the axes and judge fvar/avar. Findings: (class key, message).
+fn check_font(defs: &[AxisDef], rig: &mut FontRig, cnt: &mut FCounts, sample: Option<&mut Vec<Value>>) -> Vec<(String, String)> {
+    let mut bad: Vec<(String, String)> = vec![];
+    if defs.iter().any(|d| degenerate_qual(d) == ":design-extent-zero") {
+        // no two masters can differ on such an axis: not a variable-font source at all
+        cnt.skipped_zero_extent += 1;
+        return bad;
+    }
+    let quals: Vec<&str> = defs.iter().map(degenerate_qual).collect();
+    if quals.iter().any(|q| !q.is_empty()) {
+        cnt.degenerate_compiled += 1;
+    }
+    cnt.fonts += 1;
+    if defs.len() > 1 {
+        cnt.two_axis_fonts += 1;
+    }
+    let (design, inst) = axes_design(defs);
+    let font = match rig.compile(&design) {
+        Ok(f) => f,
+        Err(f) => {
+            cnt.compile_failures += 1;
+            let q = quals.iter().find(|q| !q.is_empty()).copied().unwrap_or("");
+            let (kind, msg) = match f {
+                fcx::Failure::Error(e) => ("compile-error", e),
+                fcx::Failure::Panic(e) => ("compile-panic", e),
+            };
+            return vec![(format!("{kind}{q}:font"), format!("the compiler fails: {msg}"))];
+        }
+    };
+    let vf = match otvar::VFont::new(&font) {
+        Ok(v) => v,
+        Err(e) => return vec![("font-unreadable:font".into(), format!("otvar: {e}"))],
+    };
+    let axes = vf.axes();
+    if axes.len() != defs.len() || axes.iter().zip(F_AXES).any(|(a, t)| a.tag != t.0) {
+        return vec![("fvar-axes-differ:font".into(), format!("fvar axes {:?}", axes.iter().map(|a| a.tag.clone()).collect::<Vec<_>>()))];
+    }
+    let data = vf.axes_data();
+    match &data.avar {
+        Some(m) if m.len() != defs.len() => {
+            return vec![("avar-axis-count:font".into(), format!("avar has {} segment maps for {} axes", m.len(), defs.len()))];
+        }
+        Some(_) => cnt.with_avar += 1,
+        None => cnt.without_avar += 1,
+    }
+    let fx = |v: f64| (v * 65536.0).round() as i64;
+    let mut any_nontrivial = false;
+    let mut sample_axes = vec![];
+    for (i, def) in defs.iter().enumerate() {
+        let r = Reference::of(def);
+        let q = quals[i];
+        let a = &axes[i];
+        // fvar = the source's user bounds, exactly (as Fixed 16.16)
+        if (a.min_fx as i64, a.default_fx as i64, a.max_fx as i64) != (fx(r.umin), fx(r.udef), fx(r.umax)) {
+            bad.push(("fvar-bounds-mismatch:font".into(), format!("axis {}: fvar ({}, {}, {}), source ({}, {}, {})", a.tag, a.min, a.default, a.max, r.umin, r.udef, r.umax)));
+        }
+        // avar structure
+        let maps: Vec<(f64, f64)> = match &data.avar {
+            Some(m) if !m[i].is_empty() => m[i].iter().map(|(f, t)| (*f as f64 / 16384.0, *t as f64 / 16384.0)).collect(),
+            _ => vec![(-1.0, -1.0), (0.0, 0.0), (1.0, 1.0)],
+        };
+        let mut structure_ok = true;
+        for req in [(-1.0, -1.0), (0.0, 0.0), (1.0, 1.0)] {
+            if !maps.contains(&req) {
+                structure_ok = false;
+                bad.push((format!("avar-missing-required-map{q}:font"), format!("axis {}: segment map {maps:?} lacks {}:{}", a.tag, req.0, req.1)));
+                break;
+            }
+        }
+        if !maps.windows(2).all(|w| w[0].0 < w[1].0) {
+            structure_ok = false;
+            bad.push((format!("avar-from-not-increasing{q}:font"), format!("axis {}: segment map {maps:?}: fromCoordinate values are not strictly increasing", a.tag)));
+        }
+        if !maps.windows(2).all(|w| w[0].1 <= w[1].1) {
+            bad.push((format!("avar-to-decreasing{q}:font"), format!("axis {}: segment map {maps:?}: toCoordinate values decrease", a.tag)));
+        }
+        // normalisation through the font against the source's own mapping
+        let ref_map: Vec<(f64, f64)> = def
+            .nodes
+            .iter()
+            .map(|(u, d)| (Reference::fvar_norm(r.umin, r.udef, r.umax, *u), norm(*d, r.dmin, r.ddef, r.dmax)))
+            .collect();
+        if ref_map.iter().any(|(x, y)| (x - y).abs() > 1e-12) {
+            any_nontrivial = true;
+        }
+        let slope = ref_map.windows(2).map(|w| (w[1].1 - w[0].1) / (w[1].0 - w[0].0)).fold(0.0f64, f64::max);
+        let tol = (1.0 + slope) / 16384.0;
+        if structure_ok {
+            for u in sample_users(def) {
+                cnt.points += 1;
+                let got = vf.normalize(&[(a.tag.clone(), u)]);
+                let want = r.user_to_norm(def, u);
+                // the other axes stay at their defaults
+                if got.iter().enumerate().any(|(j, v)| j != i && *v != 0.0) {
+                    bad.push(("other-axis-moved:font".into(), format!("setting only {} = {u} gives normalized {got:?}", a.tag)));
+                    break;
+                }
+                let err = (got[i] - want).abs();
+                cnt.max_err_over_tol = cnt.max_err_over_tol.max(err / tol);
+                if err > tol {
+                    bad.push((
+                        format!("avar-evaluation-mismatch{q}:font"),
+                        format!("axis {} at user {u}: the font normalizes to {} (without avar {}), the source mapping gives {want} (tolerance {tol:.6}, steepest slope {slope:.3}); avar {maps:?}", a.tag, got[i], vf.normalize_no_avar(&[(a.tag.clone(), u)])[i]),
+                    ));
+                    break;
+                }
+            }
+        }
+        sample_axes.push(json!({"axis": def.describe(), "fvar": [a.min, a.default, a.max], "avar": maps, "steepest_slope": slope}));
+    }
+    if any_nontrivial {
+        cnt.nontrivial += 1;
+    }
+    // named instances: inside the axis range, and at the source's user values where the mapping
+    // can be inverted there (instances are written in design coordinates)
+    if data.instances.len() != inst.len() {
+        bad.push(("fvar-instance-count:font".into(), format!("{} instances in the source, {} in fvar", inst.len(), data.instances.len())));
+    }
+    for (got, want) in data.instances.iter().zip(&inst) {
+        for (i, def) in defs.iter().enumerate() {
+            let (g, w) = (got.coords.get(i).copied().unwrap_or(f64::NAN), want[i]);
+            let r = Reference::of(def);
+            cnt.instances_checked += 1;
+            if !(r.umin..=r.umax).contains(&g) {
+                bad.push(("instance-out-of-range:font".into(), format!("axis {}: instance coordinate {g} outside [{}, {}]", F_AXES[i].0, r.umin, r.umax)));
+            }
+            let invertible = def.nodes.windows(2).all(|s| !(s[0].0 <= w && w <= s[1].0) || s[0].1 < s[1].1);
+            if invertible {
+                cnt.instances_exact += 1;
+                // design -> user interpolation in f64, then one Fixed 16.16 rounding
+                if (g - w).abs() > 1.0 / 65536.0 + 1e-9 {
+                    bad.push(("instance-coordinate-mismatch:font".into(), format!("axis {}: instance placed at user {w} has fvar coordinate {g}", F_AXES[i].0)));
+                }
+            }
+        }
+    }
+    if let Some(s) = sample {
+        s.push(json!({"axes": sample_axes, "masters": design.masters.iter().map(|m| m.loc.clone()).collect::<Vec<_>>(),
+            "instances_user": inst, "instances_fvar": data.instances.iter().map(|i| i.coords.clone()).collect::<Vec<_>>(),
+            "verdict": if bad.is_empty() { "held" } else { "violated" }}));
+    }
+    bad.sort();
+    bad.dedup_by(|a, b| a.0 == b.0);
+    bad
+}
+
+fn defs_over(users: &[f64], designs: &[f64], max_nodes: usize) -> Vec<AxisDef> {
+    let mut out = vec![];
+    for k in 2..=max_nodes {
+        let dsets = multisets(designs.len(), k);
+        for us in combos(users.len(), k) {
+            for ds in &dsets {
+                let nodes: Vec<(f64, f64)> = us.iter().zip(ds).map(|(u, d)| (users[*u], designs[*d])).collect();
+                for default_idx in 0..k {
+                    out.push(AxisDef { nodes: nodes.clone(), default_idx });
+                }
+            }
+        }
+    }
+    out
+}
+
+fn font_json(defs: &[AxisDef]) -> Value {
+    json!({"part": "font", "axes": defs.iter().map(|d| d.json()).collect::<Vec<_>>()})
+}
+
+fn part_font(rep: &mut Reporter, tier: Tier) -> Stats {
+    // single axis: every definition over the stated alphabets; two axes: every small definition
+    // next to each companion axis, in both axis orders
+    let mut cases: Vec<Vec<AxisDef>> = match tier {
+        Tier::Quick => defs_over(&F_USERS, &F_DESIGNS, 4),
+        Tier::Thorough => {
+            let mut v = defs_over(&USERS, &DESIGNS, 4);
+            v.extend(defs_over(&F_USERS, &F_DESIGNS, 5).into_iter().filter(|d| d.nodes.len() == 5));
+            v
+        }
+    }
+    .into_iter()
+    .map(|d| vec![d])
+    .collect();
+    let single = cases.len();
+    let small = defs_over(&F_USERS[..5], &[20.0, 40.0, 90.5, 120.0, 200.0], tier.pick(3, 4));
+    for d in &small {
+        for c in companions() {
+            cases.push(vec![d.clone(), c.clone()]);
+            cases.push(vec![c, d.clone()]);
+        }
+    }
+    let chunk = 128usize;
+    let ntasks = cases.len().div_ceil(chunk);
+    let results = vcore::par_for(ntasks, vcore::ncores(), |ti| {
+        let mut rig = FontRig::new();
+        let mut cnt = FCounts::default();
+        let mut cls = Classes::default();
+        let mut samples = vec![];
+        for (ci, defs) in cases[ti * chunk..((ti + 1) * chunk).min(cases.len())].iter().enumerate() {
+            let seq = (ti * chunk + ci) as u64;
+            let want_sample = samples.is_empty() && ci == 77;
+            let found = check_font(defs, &mut rig, &mut cnt, if want_sample { Some(&mut samples) } else { None });
+            for (key, msg) in found {
+                let size: Size = (defs.iter().map(|d| d.nodes.len()).sum::<usize>() + 10 * defs.len(), defs.iter().map(|d| d.flat_segments()).sum(), seq);
+                let what = defs.iter().map(|d| d.describe()).collect::<Vec<_>>().join(" + ");
+                cls.add(key, size, format!("{what}: {msg}"), font_json(defs));
+            }
+        }
+        (cnt, cls, samples)
+    });
+    let mut total = FCounts::default();
+    let mut cls = Classes::default();
+    let mut samples = vec![];
+    let n = results.len();
+    for (i, (c, k, s)) in results.into_iter().enumerate() {
+        total.add(&c);
+        cls.merge(k);
+        if samples.len() < 4 && (i == 0 || i == n / 3 || i == (2 * n) / 3 || i == n - 1) {
+            samples.extend(s.into_iter().take(1));
+        }
+    }
+    let failing: BTreeMap<String, u64> = cls.0.iter().map(|(k, v)| (k.clone(), v.0)).collect();
+    for (key, (n, _, what, replay)) in cls.0 {
+        rep.violation(&key, &format!("{what} [{n} font(s) in this class]"), replay);
+    }
+    rep.set("fonts_compiled", total.fonts);
+    rep.set("font_single_axis_cases", single);
+    rep.set("font_two_axis_fonts", total.two_axis_fonts);
+    rep.set("font_cases_skipped_zero_design_extent", total.skipped_zero_extent);
+    rep.set("font_degenerate_one_sided_axes_compiled", total.degenerate_compiled);
+    rep.set("font_compile_failures", total.compile_failures);
+    rep.set("font_points_normalized", total.points);
+    rep.set("fonts_with_avar", total.with_avar);
+    rep.set("fonts_without_avar", total.without_avar);
+    rep.set("fonts_with_bent_axis", total.nontrivial);
+    rep.set("font_instance_coordinates_checked", total.instances_checked);
+    rep.set("font_instance_coordinates_compared_exactly", total.instances_exact);
+    rep.set("font_max_error_over_tolerance", (total.max_err_over_tol * 1000.0).round() / 1000.0);
+    rep.set("failing_fonts_by_class", json!(failing));
+    rep.set("font_samples", samples);
+    rep.assume("part (ii): the axis is written as a designspace <map> (no <map> when it is the identity) on a one-glyph font with masters at the default and at each design extreme that differs from it; quick: user nodes from {100,150.5,200,300,400,600,900}, design values from {20,40,60,90.5,120,160,200}, 2-4 nodes, every default position; thorough: the full part (i) alphabets with 2-4 nodes plus all 5-node definitions over the quick alphabets; two-axis fonts pair every 2-3 (thorough 2-4) node definition over a 5x5 sub-alphabet with three fixed companion axes in both axis orders");
+    rep.assume("part (ii) normalizes with otvar's integer pipeline (Fixed 16.16 default normalisation, avar segment map, F2Dot14 result) on the raw fvar/avar bytes; tolerance 2^-14*(1+S) as in part (i); axes whose design values are all equal are skipped (no variable font can be built on them) and counted; instances are written in design coordinates, so their fvar coordinates are compared with the source's user values only where the mapping is strictly increasing around them, within 2^-16");
+    Stats {
+        evaluations: total.points,
+        nontrivial: total.nontrivial,
+    }
+}
+
+fn parse_def(r: &Value) -> Option<AxisDef> {
+    let nodes: Vec<(f64, f64)> = r
+        .get("nodes")?
+        .as_array()?
+        .iter()
+        .map(|p| (p[0].as_f64().unwrap_or(f64::NAN), p[1].as_f64().unwrap_or(f64::NAN)))
+        .collect();
+    let default_idx = r.get("default_idx")?.as_u64()? as usize;
+    if nodes.len() < 2 || default_idx >= nodes.len() || !nodes.windows(2).all(|w| w[0].0 < w[1].0 && w[0].1 <= w[1].1) {
+        return None;
+    }
+    Some(AxisDef { nodes, default_idx })
+}
+
+fn replay_font(r: &Value) -> ! {
+    let bad = |m: &str| -> ! { vcore::machinery_error(&format!("replay: {m}")) };
+    let defs: Vec<AxisDef> = r
+        .get("axes")
+        .and_then(|x| x.as_array())
+        .unwrap_or_else(|| bad("axes"))
+        .iter()
+        .map(|a| parse_def(a).unwrap_or_else(|| bad("axis definition")))
+        .collect();
+    if defs.is_empty() || defs.len() > 2 {
+        bad("1 or 2 axes");
+    }
+    let mut rig = FontRig::new();
+    let mut cnt = FCounts::default();
+    let mut sample = vec![];
+    let found = check_font(&defs, &mut rig, &mut cnt, Some(&mut sample));
+    for d in &defs {
+        println!("{}", d.describe());
+    }
+    if let Some(s) = sample.first() {
+        println!("{s}");
+    }
+    if cnt.skipped_zero_extent > 0 {
+        println!("skipped: an axis without design extent");
+    }
+    for (k, m) in &found {
+        println!("{k}: {m}");
+    }
+    drop(rig);
+    let fails = !found.is_empty();
+    println!("replay: the case {}", if fails { "still fails" } else { "no longer fails" });
+    vcore::cleanup_scratch();
+    std::process::exit(fails as i32)
+}
 
 fn replay(path: &Path) -> ! {
     let bad = |m: &str| -> ! { vcore::machinery_error(&format!("replay {path:?}: {m}")) };
     let text = std::fs::read_to_string(path).unwrap_or_else(|e| bad(&e.to_string()));
     let v: Value = serde_json::from_str(&text).unwrap_or_else(|e| bad(&e.to_string()));
     let r = v.get("replay").unwrap_or(&v);
+    if r.get("part").and_then(|x| x.as_str()) == Some("font") {
+        std::panic::set_hook(Box::new(|_| {}));
+        replay_font(r);
+    }
     let nodes: Vec<(f64, f64)> = r
         .get("nodes")
         .and_then(|x| x.as_array())
@@ -781,6 +1219,8 @@ fn replay(path: &Path) -> ! {
 }
 
 fn main() {
+    // one build epoch for every in-process compile
+    unsafe { std::env::set_var("SOURCE_DATE_EPOCH", "1700000000") };
     let args = vcore::parse_args();
     if let Some(p) = &args.replay {
         replay(p);
@@ -789,12 +1229,12 @@ fn main() {
     let hook = std::panic::take_hook();
     std::panic::set_hook(Box::new(|_| {}));
     let pure = part_pure(&mut rep, args.tier);
+    let font = part_font(&mut rep, args.tier);
     std::panic::set_hook(hook);
-    // let font = part_font(&mut rep, args.tier);
-    rep.set("evaluations", pure.evaluations);
-    rep.set("distinct_nontrivial", pure.nontrivial);
-    rep.set("rule", "evaluations = user values converted through the real converter and compared with the reference (nodes, midpoints, quarter points of every segment) + user values pushed through fvar normalisation and the produced avar segment map. distinct_nontrivial = distinct axis definitions (distinct by construction) whose mapping is not the default normalisation, i.e. some node's design-normalized value differs from its fvar-normalized value, so avar has to bend the axis");
+    rep.set("evaluations", pure.evaluations + font.evaluations);
+    rep.set("distinct_nontrivial", pure.nontrivial + font.nontrivial);
+    rep.set("rule", "evaluations = user values converted through the real converter and compared with the reference (nodes, midpoints, quarter points of every segment) + user values pushed through fvar normalisation and the produced avar segment map. distinct_nontrivial = distinct axis definitions (distinct by construction) whose mapping is not the default normalisation, i.e. some node's design-normalized value differs from its fvar-normalized value, so avar has to bend the axis; part (ii) adds the user values normalized through compiled fonts and the compiled fonts with such a bent axis");
     rep.set("exhaustive", true);
-    rep.set("parts_implemented", json!(["i: CoordConverter + avar/fvar work items"]));
+    rep.set("parts_implemented", json!(["i: CoordConverter + avar/fvar work items", "ii: designspace <map> -> fvar/avar of the compiled font"]));
     rep.finish()
 }
